@@ -209,6 +209,19 @@ func (p *pathNode) addPathNodeFor(name string, pn *pathNode) {
 // returned by this function. Any operations on the removed tree must use this
 // value.
 func (p *pathNode) removeWithName(name string, fn func(ref *fidRef)) *pathNode {
+	// held are the references taken for the callbacks below. They are
+	// dropped only after childMu is released (deferred calls run last in,
+	// first out): if one of them turns out to be the last (the fid was
+	// clunked or its connection went away meanwhile), dropping it destroys
+	// the fidRef, which takes the childMu of its parent's node - quite
+	// possibly this one.
+	var held []*fidRef
+	defer func() {
+		for _, ref := range held {
+			ref.DecRef()
+		}
+	}()
+
 	p.childMu.Lock()
 	defer p.childMu.Unlock()
 
@@ -225,8 +238,8 @@ func (p *pathNode) removeWithName(name string, fn func(ref *fidRef)) *pathNode {
 			// can lead to data races. If the child has already
 			// been destroyed, then we can skip the callback.
 			if ref.TryIncRef() {
+				held = append(held, ref)
 				fn(ref)
-				ref.DecRef()
 			}
 		}
 	}
